@@ -365,10 +365,102 @@ class Gen:
                                       after=lf["replace"] + "  +  " + lf["sig"],
                                       trusted="closure conversion: the closure body becomes the body of a method whose parameters are the closure's parameters and its captured variables; the index method is an opaque shim that may run it"))
             body = body[:hits[0].start()] + lf["replace"] + body[cl + 1:]
+        body = self._inline_helpers(key, body, container, s.path, body_line)
         self._emit_fn_text(key, sig, body, sig_line, body_line, s.path, indent, rl)
         for lf, cbody, cline in lifted:
             lkey = (container + "::" if container else "") + lf["name"]
             self._emit_fn_text(lkey, indent + lf["sig"] + "\n" + indent, cbody, cline, cline, s.path, indent, rl)
+
+    def _known_methods(self):
+        if getattr(self, "_known", None) is None:
+            names = set()
+            for p in self.unit.get("prelude", []):
+                names.update(re.findall(r"\bfn\s+(\w+)", open(os.path.join(VERIF, "vx", "prelude", p)).read()))
+            for it in self.unit["items"]:
+                if it[0] == "fn":
+                    names.add(it[2])
+                elif it[0] == "impl":
+                    names.update(it[3])
+            for lfs in self.unit.get("lifts", {}).values():
+                names.update(lf["name"] for lf in lfs)
+            self._known = names
+        return self._known
+
+    def _inline_helpers(self, key, body, container, path, body_line):
+        """Rule R-inline: a call `self.h(args)` / `Self::h(args)` to a method the unit does not know (an edit
+        extracted a helper) is replaced by the helper's body when that body is ONE expression and the
+        arguments are plain places (identifiers, field paths, & of those): beta-reduction, nothing trusted.
+        Anything else is left alone (the unit then fails to compile = undecided, as before)."""
+        if not self.unit.get("inline_helpers", True):
+            return body
+        known = self._known_methods()
+        containers = [container] if container else []
+        containers += [it[2] for it in self.unit["items"] if it[0] == "impl" and it[2] not in containers]
+        for _ in range(6):
+            mb = mask(body)
+            hit = None
+            for mm in re.finditer(r"(?<![\w.])(\w+\s*\.|Self\s*::)\s*(\w+)\s*\(", mb):
+                name = mm.group(2)
+                if name in known:
+                    continue
+                found = None
+                for alias in list(self.unit["sources"]):
+                    for cont in containers:
+                        try:
+                            src = self.src(alias)
+                            found = (src, src.find_fn(name, cont))
+                            break
+                        except (ParseError, Undecided):
+                            continue
+                    if found:
+                        break
+                if not found:
+                    continue
+                src, f = found
+                hsig = src.text[f["start"]:f["body_open"]]
+                hbody = src.text[f["body_open"] + 1:f["end"] - 1].strip()
+                hm = mask(hbody)
+                if re.search(r";|\blet\b|\breturn\b|\?|\bloop\b|\bwhile\b|\bfor\b", hm):
+                    continue
+                pm = re.search(r"\bfn\s+%s\s*(<[^>]*>)?\s*\(" % re.escape(name), mask(hsig))
+                if not pm:
+                    continue
+                pc = match_close(mask(hsig), pm.end() - 1)
+                ptxt = hsig[pm.end():pc]
+                params = [x.strip() for x in split_top_level(mask(ptxt), ptxt, ",") if x.strip()]
+                is_method = bool(params) and re.fullmatch(r"&?\s*(mut\s+)?self", params[0]) is not None
+                recv = mm.group(1).rstrip(". \t\n")
+                if is_method == mm.group(1).startswith("Self"):
+                    continue
+                pnames = []
+                ok = True
+                for prm in params[1 if is_method else 0:]:
+                    q = re.match(r"(?:mut\s+)?(\w+)\s*:", prm)
+                    if not q:
+                        ok = False
+                        break
+                    pnames.append(q.group(1))
+                op = mm.end() - 1
+                cl = match_close(mb, op)
+                atxt = body[op + 1:cl]
+                args = [x.strip() for x in split_top_level(mask(atxt), atxt, ",") if x.strip()]
+                if not ok or len(args) != len(pnames) or not all(re.fullmatch(r"&?\s*(mut\s+)?\*?[\w.]+(\(\))?", a_) for a_ in args):
+                    continue
+                new = hbody
+                if is_method and recv != "self":
+                    new = re.sub(r"(?<![\w.])self\b", recv, new)
+                for pn, a_ in zip(pnames, args):
+                    new = re.sub(r"(?<![\w.])%s\b" % re.escape(pn), "(" + a_ + ")", new)
+                hit = (mm.start(), cl + 1, "(" + new + ")", name, src.path)
+                break
+            if not hit:
+                return body
+            a, b, new, name, hpath = hit
+            self.fidelity.append(dict(rule="R-inline", file=path, line=body_line + body.count("\n", 0, a), item=key,
+                                      before=re.sub(r"\s+", " ", body[a:b]), after=re.sub(r"\s+", " ", new),
+                                      trusted="nothing (beta-reduction of the one-expression helper %s from %s, which the unit does not list)" % (name, hpath)))
+            body = body[:a] + new + body[b:]
+        return body
 
     def _emit_fn_text(self, key, sig, body, sig_line, body_line, path, indent, rl):
         class _S:
